@@ -58,27 +58,67 @@ class SegsRenderable:
         yield from self.segs
 
 
+class TtyIO(io.StringIO):
+    """a text file that says whether it is a terminal"""
+
+    def __init__(self, tty):
+        super().__init__()
+        self._tty = tty
+
+    def isatty(self):
+        return self._tty
+
+
+# how the colour system is named to `Console(color_system="auto")` through the environment (documented detection:
+# COLORTERM=truecolor|24bit -> truecolor; TERM=<name>-256color -> 256; anything else on a terminal -> standard;
+# TERM=dumb|unknown or not a terminal -> None)
+AUTO_ENV = {
+    3: [{"COLORTERM": "truecolor"}, {"COLORTERM": " 24BIT ", "TERM": "xterm"}, {"COLORTERM": "TrueColor", "TERM": "xterm-256color"}],
+    2: [{"TERM": "xterm-256color"}, {"TERM": " SCREEN-256COLOR", "COLORTERM": "yes"}],
+    1: [{"TERM": "xterm"}, {"TERM": "xterm-16color"}, {}, {"TERM": "vt100", "COLORTERM": ""}, {"TERM": "rxvt-unicode-256color-x"}],
+    0: [{"TERM": "dumb"}, {"TERM": "UNKNOWN", "COLORTERM": "truecolor"}],
+}
+
+
 class Consoles:
-    """one long-lived real Console per configuration (shared between histories on purpose)"""
+    """long-lived real Consoles, one per (configuration, construction route), shared between histories on purpose.
+    route 0: every option given explicitly; route 1: the same configuration reached through the option handling
+    of Console.__init__ — NO_COLOR from the environment, terminal-ness from file.isatty(), colour system "auto"."""
 
     def __init__(self):
         self.cache = {}
 
-    def get(self, cfg):
+    def get(self, cfg, route=0):
         from rich.console import Console
 
-        c = self.cache.get(cfg)
+        cs, nc, t, lw = cfg
+        key = (cfg, route)
+        c = self.cache.get(key)
         if c is None:
-            cs, nc, t, lw = cfg
-            c = Console(file=io.StringIO(), force_terminal=bool(t), color_system=CS_NAMES[cs], no_color=bool(nc), legacy_windows=bool(lw),
-                        width=WIDTH, _environ={}, markup=False, emoji=False, highlight=False)
-            self.cache[cfg] = c
-        c.file = io.StringIO()
+            if route == 0:
+                c = Console(file=io.StringIO(), force_terminal=bool(t), color_system=CS_NAMES[cs], no_color=bool(nc), legacy_windows=bool(lw),
+                            width=WIDTH, _environ={}, markup=False, emoji=False, highlight=False)
+            else:
+                env = {}
+                color_system = CS_NAMES[cs]
+                if t and cs in AUTO_ENV:
+                    choices = AUTO_ENV[cs]
+                    env.update(choices[(nc + 2 * lw + len(self.cache)) % len(choices)])
+                    color_system = "auto"
+                elif not t and cs == 0:
+                    env.update({"COLORTERM": "truecolor", "TERM": "xterm-256color"})
+                    color_system = "auto"
+                if nc:
+                    env["NO_COLOR"] = ""
+                c = Console(file=TtyIO(bool(t)), force_terminal=None, color_system=color_system, no_color=None, legacy_windows=bool(lw),
+                            width=WIDTH, _environ=env, markup=False, emoji=False, highlight=False)
+            self.cache[key] = c
+        c.file = io.StringIO() if route == 0 else TtyIO(bool(t))
         return c
 
-    def drop(self, cfg):
+    def drop(self, cfg, route=0):
         """after an exception a console may be left inside a buffer / capture context: never reuse it"""
-        self.cache.pop(cfg, None)
+        self.cache.pop((cfg, route), None)
 
 
 def err_name(e):
@@ -127,6 +167,13 @@ class History:
         self.ops.append("C@%d" % i)
         self.readable.append(f"s{len(self.objs) - 1}=s{i}.copy()")
         return len(self.objs) - 1
+
+    def add(self, i, j):
+        """`objs[i] + objs[j]`: one of the operands when the other is null, otherwise a new object with an empty cache"""
+        return self.handle(self.objs[i] + self.objs[j], f"s{i}+s{j}")
+
+    def without_color(self, i):
+        return self.handle(self.objs[i].without_color, f"s{i}.without_color")
 
     def update_link(self, i, link):
         s = self.objs[i].update_link(link)
@@ -185,7 +232,7 @@ class History:
             cells.extend((ch, look) for ch in text)
         return cells
 
-    def write(self, cfg, segs, mode):
+    def write(self, cfg, segs, mode, route=0):
         """`segs` = [(text, handle|None, control)] written through the console of configuration `cfg`."""
         from rich.segment import Segment
 
@@ -193,7 +240,7 @@ class History:
             return
         ctx = self.ctx
         cs, nc, t, lw = cfg
-        console = self.consoles.get(cfg)
+        console = self.consoles.get(cfg, route)
         real = [Segment(text, None if h is None else self.objs[h], bool(control)) for text, h, control in segs]
         rb = getattr(console, "_render_buffer", None)
         if mode == 0 and rb is None:
@@ -219,8 +266,9 @@ class History:
             if isinstance(e, (KeyboardInterrupt, SystemExit)):
                 raise
             out = e
-            self.consoles.drop(cfg)
+            self.consoles.drop(cfg, route)
         ctx.note("mode%d" % mode)
+        ctx.note("route%d" % route)
         self.ops.append("R@%s@%s" % (A.enc_cfg(*cfg), A.enc_segs(segs)))
         self.readable.append("console(cs=%s,no_color=%d,terminal=%d,legacy=%d).write(%s)" % (CS_NAMES[cs], nc, t, lw, ", ".join(
             ("ctl" if c else "seg") + "(%r,%s)" % (tx, "None" if h is None else "s%d" % h) for tx, h, c in segs)))
@@ -477,7 +525,7 @@ def run(ctx):
             h = hist("E1-attr")
             s = h.new(Style(**{a: val}), f"Style({a}={val})")
             for k, cfg in enumerate(all_cfgs()):
-                h.write(cfg, [("x", s, False)], mode=k % 4)
+                h.write(cfg, [("x", s, False)], mode=k % 4, route=(k // 4 + i) % 2)
             h.finish()
     # ---- E2. every pair of attributes on; all on; all but one; all off
     for i, j in itertools.combinations(range(13), 2):
@@ -502,8 +550,8 @@ def run(ctx):
                 for nc in (0, 1):
                     # a fresh twin for each system keeps the colour maths visible even when the cache is stale
                     tw = h.new(Style(color=c) if fg else Style(bgcolor=c), "twin")
-                    h.write((cs, nc, 1, 0), [("x", tw, False)], mode=0)
-                    h.write((cs, nc, 1, 0), [("x", s, False)], mode=cs % 4)
+                    h.write((cs, nc, 1, 0), [("x", tw, False)], mode=0, route=nc)
+                    h.write((cs, nc, 1, 0), [("x", s, False)], mode=cs % 4, route=1 - nc)
             h.finish()
     # ---- E4. the cache is state: same object / copy() / update_link() under every ordered pair of colour systems
     kinds = [lambda: Style(color="#ff8800", bold=True), lambda: Style(bgcolor="color(100)"), lambda: Style(color="red", bgcolor="#010203", link="http://l"),
@@ -511,15 +559,27 @@ def run(ctx):
     for mk in kinds:
         for cs1 in range(5):
             for cs2 in range(5):
-                for via in range(4):
+                for via in range(7):
                     h = hist("E4-cache")
                     s = h.new(mk())
                     if via == 3:
                         h.style_render(s, "a", cs1, 0)
                     else:
-                        h.write((cs1, 0, 1, 0), [("a", s, False)], mode=(cs1 + cs2) % 4)
-                    t = s if via in (0, 3) else h.copy(s) if via == 1 else h.update_link(s, "http://n")
-                    h.write((cs2, 0, 1, 0), [("b", t, False), ("c", s, False)], mode=cs2 % 4)
+                        h.write((cs1, 0, 1, 0), [("a", s, False)], mode=(cs1 + cs2) % 4, route=via % 2)
+                    if via in (0, 3):
+                        t = s
+                    elif via == 1:
+                        t = h.copy(s)
+                    elif via == 2:
+                        t = h.update_link(s, "http://n")
+                    elif via == 4:
+                        t = h.add(s, h.new(Style(underline=True, bgcolor="#123456")))   # a new object: its cache must be empty
+                    elif via == 5:
+                        t = h.add(h.new(Style(underline=True)), s)
+                    else:
+                        t = h.without_color(s)
+                    h.write((cs2, 0, 1, 0), [("b", t, False), ("c", s, False)], mode=cs2 % 4, route=(via + 1) % 2)
+                    h.write((cs2, 1, 1, 0), [("d", t, False), ("e", s, False)], mode=0)
                     h.finish()
     # ---- E5. control segments x style kind x configuration
     for cfg in all_cfgs():
@@ -527,7 +587,7 @@ def run(ctx):
             h = hist("E5-control")
             styles = [None, h.new(Style(bold=True, color="red")), h.new(Style.null(), "null"), h.new(Style(link="http://c")), h.new(Style(bold=False))]
             for st in styles:
-                h.write(cfg, [("a", None, False), (text, st, True), ("b", st, False)], mode=0 if "\x1b" in text else 1)
+                h.write(cfg, [("a", None, False), (text, st, True), ("b", st, False)], mode=0 if "\x1b" in text else 1, route=len(text) % 2)
             h.finish()
     # ---- E6. through the public API only: Style.parse (lru_cache shared by every console) + console.print(Text)
     _public_api_histories(ctx, consoles)
@@ -541,8 +601,29 @@ def run(ctx):
         h.write(rand_cfg(rng), [("d", g, False)], mode=0)
         h.finish()
     ctx.flush()
+    # ---- G. a few long histories: a dozen objects shared by all 40 configurations, everything interleaved
+    for g in range(2 if ctx.quick else 12):
+        h = hist("G-long")
+        for _ in range(10):
+            st, how = rand_style(rng)
+            h.new(st, how)
+        for _ in range(150 if ctx.quick else 600):
+            n = len(h.objs)
+            r = rng.random()
+            if r < 0.04 and n < 40:
+                h.copy(rng.randrange(n))
+            elif r < 0.08 and n < 40:
+                h.update_link(rng.randrange(n), rng.choice(LINKS))
+            elif r < 0.11 and n < 40:
+                h.add(rng.randrange(n), rng.randrange(n))
+            elif r < 0.16:
+                h.style_render(rng.randrange(n), rng.choice(TEXTS), rng.randrange(5), 0)
+            else:
+                h.write(rand_cfg(rng), rand_segs(rng, n, clean_only=True, maxn=3), rng.randrange(3), route=int(rng.random() < 0.3))
+        h.finish()
+    ctx.flush()
     # ---- R. seeded random histories from the full product
-    n_hist = 1500 if ctx.quick else 60000
+    n_hist = 6000 if ctx.quick else 150000
     for k in range(n_hist):
         h = hist("R-random")
         nobj = rng.randint(1, 4)
@@ -552,23 +633,28 @@ def run(ctx):
         nops = rng.randint(1, 5) if rng.random() < 0.9 else rng.randint(6, 14)
         for _ in range(nops):
             r = rng.random()
-            if r < 0.08:
-                h.copy(rng.randrange(len(h.objs)))
-            elif r < 0.16:
-                h.update_link(rng.randrange(len(h.objs)), rng.choice(LINKS))
-            elif r < 0.22:
+            n = len(h.objs)
+            if r < 0.07:
+                h.copy(rng.randrange(n))
+            elif r < 0.14:
+                h.update_link(rng.randrange(n), rng.choice(LINKS))
+            elif r < 0.19:
                 st, how = rand_style(rng)
                 h.new(st, how)
-            elif r < 0.30:
-                h.style_render(rng.randrange(len(h.objs)), rng.choice(TEXTS + [""]), rng.randrange(5), int(rng.random() < 0.2))
+            elif r < 0.23:
+                h.add(rng.randrange(n), rng.randrange(n))
+            elif r < 0.26:
+                h.without_color(rng.randrange(n))
+            elif r < 0.33:
+                h.style_render(rng.randrange(n), rng.choice(TEXTS + [""]), rng.randrange(5), int(rng.random() < 0.2))
             else:
                 cfg = rand_cfg(rng)
                 mode = rng.randrange(4)
                 if mode == 3:
-                    segs = [(tx, hh, c) for tx, hh, c in rand_segs(rng, len(h.objs), clean_only=True) if "\n" not in tx]
+                    segs = [(tx, hh, c) for tx, hh, c in rand_segs(rng, n, clean_only=True) if "\n" not in tx]
                 else:
-                    segs = rand_segs(rng, len(h.objs), clean_only=rng.random() < 0.7)
-                h.write(cfg, segs, mode)
+                    segs = rand_segs(rng, n, clean_only=rng.random() < 0.7)
+                h.write(cfg, segs, mode, route=int(rng.random() < 0.3))
         h.finish()
     ctx.flush()
     ctx.rule = (
@@ -617,8 +703,10 @@ def _public_api_histories(ctx, consoles):
                     raise
                 ctx.check(False, "Style.parse", definition, f"raised {type(e).__name__}")
                 continue
-            s = h.new(style, f"Style.parse({definition!r})")
+            s0 = h.new(style, f"Style.parse({definition!r})")
             for cs, out in zip((cs1, cs2), outs):
+                # Console.get_style hands out `style.copy()` when the style has a link (console.py get_style)
+                s = h.copy(s0) if style.link else s0
                 h.ops.append("R@%s@%s" % (A.enc_cfg(cs, 0, 1, 0), A.enc_segs([("x", s, False)])))
                 h.readable.append("Console(color_system=%r).print(Text('x', style=%r, end=''))" % (CS_NAMES[cs], definition))
                 exp = h.expected_cells((cs, 0, 1, 0), [("x", s, False)])
@@ -629,6 +717,8 @@ def _public_api_histories(ctx, consoles):
                 finding = None
                 if it.cells != exp and it.cells == h.expected_cells((cs1, 0, 1, 0), [("x", s, False)]):
                     finding = SLUG_STALE
+                if cs == cs1 and not style.link:
+                    h.first_cs[s] = cs
                 ctx.check(it.cells == exp, "console.print:stream_means_segments", h.describe(),
                           "interpreting %r gives %s, the style says %s" % (out, A.enc_cells(it.cells), A.enc_cells(exp)), finding=finding)
                 ctx.check(it.state() == A.PLAIN, "console.print:no_leak", h.describe(), "terminal left in state %s" % A.enc_look(it.state()))
